@@ -1068,6 +1068,7 @@ impl Evaluator {
     /// See [Evaluator::apply_keyswitching].
     pub fn apply_keyswitching_inplace(&self, encrypted: &mut Ciphertext, keyswitching_key: &KSwitchKeys) {
         assert_eq!(keyswitching_key.data().len(), 1);
+        self.check_ciphertext(encrypted);
         assert_eq!(encrypted.size(), 2);
         // due to the semantics of `switch_key_inplace_internal`, we should first get the c0 out
         // and then clear the original c0 in the encrypted.
@@ -1605,6 +1606,7 @@ impl Evaluator {
 
     /// See [Evaluator::mod_switch_to_next_plain].
     pub fn mod_switch_to_next_plain_new(&self, plain: &Plaintext) -> Plaintext {
+        self.check_plaintext(plain);
         let mut result = plain.clone();
         self.mod_switch_drop_to_next_plain_internal(&mut result);
         result
